@@ -300,6 +300,54 @@ def r7_one_proposal_per_id(cx):
     cx.check("retransmit-recomputes-public-key", ok, site_of(cyc), "the retransmission path derives the proposed public key from the stored secret (compute_public_key(&self.proposed))")
 
 
+def r8_cycle_every_interval(cx):
+    """Freshness half of the property: the sealing key is replaced at least every second rotation interval *while
+    rotation messages get through* - which needs both ends to run `RotationState::cycle` whenever their interval has
+    elapsed (cycle is also what confirms the peer's proposal).  Rule: in PeerCrypto::every_second the tick counter is
+    advanced on every tick on which a rotation state exists and no handshake message is pending, and from the edge
+    `rotate_counter >= ROTATE_INTERVAL` every path to a return passes the call of cycle()."""
+    prog = cx.prog
+    pes = A.method(prog, "PeerCrypto", "every_second")
+    cyc = A.method(prog, "RotationState", "cycle")
+    cx.touch(pes)
+    from ..region import edges_where
+    iv = prog.const_value("ROTATE_INTERVAL")
+    due = edges_where(pes, lambda r: place_is_field(r, "PeerCrypto", "rotate_counter"), "Ge", iv)
+    cx.check("interval-test", bool(due), site_of(pes), "every_second compares rotate_counter with ROTATE_INTERVAL (%s)" % iv)
+    calls = [ci for ci, ct in pes.calls() if any(d == cyc.did for _k, d in prog.cg.resolve(pes, ct))]
+    cx.exact("cycle-calls", len(calls), 1, "calls of RotationState::cycle in PeerCrypto::every_second")
+    if due and calls:
+        bad = []
+        for e in sorted(due):
+            reach = feasible_reach(pes, [pes.cfg.succ[e[1]][e[2]]], avoid_blocks=calls)
+            bad += [x for x in reach if x in pes.cfg.exits]
+        cx.check("cycle-whenever-due", not bad, site_of(pes, calls[0]),
+                 "once the interval has elapsed every path to a return runs the rotation cycle (no idle / traffic-dependent skip)")
+    # the counter is advanced by exactly one, unconditionally under `rotation is Some`
+    incs = []
+    for bi, si, s0 in pes.stmts():
+        if s0["k"] == "assign" and place_is_field(s0["place"], "PeerCrypto", "rotate_counter") and s0["rv"]["k"] == "use":
+            o = origin(pes, s0["rv"]["op"])
+            if o[0] == "rvalue" and o[2]["rv"]["k"] == "binop" and o[2]["rv"]["op"].startswith("Add") and op_const(o[2]["rv"]["b"]) == 1:
+                incs.append(bi)
+    cx.exact("counter-increments", len(incs), 1, "increments of rotate_counter in every_second")
+    some_rot = option_some_edges(pes, lambda r: place_is_field(r, "PeerCrypto", "rotation"))
+    for bi in incs:
+        foreign = []
+        for e in pes.cfg.controlling_edges(bi):
+            if e in some_rot:
+                continue
+            tt = pes.blocks[e[1]]["term"]
+            if tt["k"] != "switch":
+                continue
+            foreign.append(e[1])
+        # conditions before the rotation block (handshake message pending, init tick error) are those of the
+        # reviewed tree; a new condition shows up as a controlling edge between the Some(rotation) test and the increment
+        inner = [sb for sb in foreign if any(pes.cfg.dominates(es, sb) for es in some_rot)]
+        cx.check("counter-advances-every-tick", bool(some_rot) and not inner, site_of(pes, bi),
+                 "the rotation tick counter advances on every tick on which a rotation state exists (no further condition inside that branch)")
+
+
 RULES = [
     ("C07.R1", r1_constants_by_site, "use_for_sending constants by site"),
     ("C07.R2", r2_installed_before_leaving, "every rotated key is installed, unchanged, before the reply leaves"),
@@ -308,6 +356,7 @@ RULES = [
     ("C07.R5", r5_slot_arithmetic, "slot arithmetic agrees (one modulus = number of slots)"),
     ("C07.R6", r6_sealed_and_typed, "rotation messages are typed; user sends cannot use the rotation type"),
     ("C07.R7", r7_one_proposal_per_id, "one proposal per own message id: retransmission keeps the stored secret"),
+    ("C07.R8", r8_cycle_every_interval, "the rotation cycle runs on every elapsed interval (no traffic-dependent skip)"),
 ]
 
 LEVEL_TEXT = ("Static discipline rules on MIR for install-before-announce / switch-on-confirmation: a receive-only key is emitted exactly where a confirmation "
